@@ -107,9 +107,74 @@ def theorem_names_by_module(pid):
     return out
 
 
+def gen_modules(pid):
+    """modules lean/SpiceEvGen/<pid>.lean, <pid>_*.lean: theorems about definitions GENERATED from the Python source
+    (harness/py2lean.py); built and audited under a lock after the source has been re-translated"""
+    d = LEAN / "SpiceEvGen"
+    if not re.match(r"^C\d\d$", pid) or not d.is_dir():
+        return []
+    return ([pid] if (d / (pid + ".lean")).exists() else []) + sorted(f.stem for f in d.glob(pid + "_*.lean"))
+
+
+def gen_theorem_names(pid):
+    out = {}
+    for m in gen_modules(pid):
+        out[m] = re.findall(r"^theorem\s+(%s_gen_\w+)" % pid,
+                            _strip_comments((LEAN / "SpiceEvGen" / (m + ".lean")).read_text()), flags=re.M)
+    return out
+
+
 def theorem_names(pid):
-    """property theorems of `pid`: every `theorem <pid>_…` in its theorem modules"""
-    return [n for ns in theorem_names_by_module(pid).values() for n in ns]
+    """property theorems of `pid`: every `theorem <pid>_…` in its theorem modules (+ generated-model modules)"""
+    return [n for ns in theorem_names_by_module(pid).values() for n in ns] + \
+        [n for ns in gen_theorem_names(pid).values() for n in ns]
+
+
+def _axioms_of(out, names, res):
+    flat = re.sub(r"\s+", " ", out)
+    for n in names:
+        m = re.search(r"'SpiceEv\.%s' depends on axioms: \[([^\]]*)\]" % re.escape(n), flat)
+        if m:
+            ax = [a.strip() for a in m.group(1).split(",") if a.strip()]
+        elif re.search(r"'SpiceEv\.%s' does not depend on any axioms" % re.escape(n), flat):
+            ax = []
+        else:
+            res["failed"].append("%s: not found / did not compile" % n)
+            continue
+        res["axioms"][n] = ax
+        bad = [a for a in ax if a not in ALLOWED_AXIOMS]
+        if bad:
+            res["failed"].append("%s: disallowed axioms %s" % (n, bad))
+        else:
+            res["discharged"].append(n)
+
+
+def gen_audit(pid, res):
+    """re-translate the Python source, build the generated-model theorem modules of pid and audit them"""
+    by_mod = gen_theorem_names(pid)
+    if not by_mod:
+        return
+    import fcntl
+    import py2lean
+    (LEAN / ".lake").mkdir(exist_ok=True)
+    with open(LEAN / ".lake" / "gen.lock", "w") as lk:
+        fcntl.flock(lk, fcntl.LOCK_EX)          # Src.lean is shared by concurrent checks (possibly of other trees)
+        status = py2lean.generate(str(REPO), str(LEAN / "SpiceEvGen" / "Src.lean"))
+        res["generated"] = {k: ("translated" if v is None else v) for k, v in status.items()}
+        for mod_name, names in by_mod.items():
+            res["obligations"] += [n for n in names if n not in res["obligations"]]
+            p = subprocess.run(["lake", "build", "SpiceEvGen." + mod_name], cwd=LEAN, capture_output=True, text=True)
+            if p.returncode != 0:
+                res["failed"].append("generated-model module SpiceEvGen.%s no longer builds against the current "
+                                     "source of %s" % (mod_name, ", ".join(sorted(status))))
+                res["log"] = (res["log"] + (p.stdout + p.stderr)[-2500:])[-4000:]
+                continue
+            audit = LEAN / ".lake" / ("audit_gen_%s.lean" % mod_name)
+            audit.write_text("import SpiceEvGen.%s\n" % mod_name +
+                             "".join("#print axioms SpiceEv.%s\n" % n for n in names))
+            q = subprocess.run(["lake", "env", "lean", str(audit)], cwd=LEAN, capture_output=True, text=True)
+            res["log"] = (res["log"] + q.stdout + q.stderr)[-4000:]
+            _axioms_of(q.stdout + q.stderr, names, res)
 
 
 def lean_audit(pid):
@@ -147,6 +212,7 @@ def lean_audit(pid):
                 res["failed"].append("%s: disallowed axioms %s" % (n, bad))
             else:
                 res["discharged"].append(n)
+    gen_audit(pid, res)
     return res
 
 
@@ -420,6 +486,7 @@ class Run:
                 % (self.pid, ",".join(theorem_modules(self.pid))),
                 "trusted_base": TRUSTED_BASE + list(getattr(mod, "TRUSTED", [])),
                 "forbidden_token_hits": proof["grep"],
+                "generated_model": aud.get("generated"),
                 "leanchecker": proof.get("leanchecker"),
                 "evaluations": self.evaluations,
                 "distinct_nontrivial": len(self.distinct),
